@@ -307,8 +307,12 @@ func (s *BlockFetcher) processSpecBlockParts(
 							}
 						}
 
-						orderedBlockBodiesCh <- s.adaptAndSanityCheckBlock(ctx, headerAndSig.header, diffs.contractDiffs,
-							cls.classes, txs.txs, txs.receipts, es.events, prevBlockRoot)
+						// the only receiver (pipeline.Bridge) stops receiving when the context is cancelled
+						select {
+						case <-ctx.Done():
+						case orderedBlockBodiesCh <- s.adaptAndSanityCheckBlock(ctx, headerAndSig.header, diffs.contractDiffs,
+							cls.classes, txs.txs, txs.receipts, es.events, prevBlockRoot):
+						}
 					}
 
 					if curBlockNum > 0 {
@@ -338,9 +342,17 @@ func (s *BlockFetcher) adaptAndSanityCheckBlock(
 	bodyCh := make(chan BlockBody)
 	go func() {
 		defer close(bodyCh)
+		// the only receiver (pipeline.Bridge) stops receiving when the context is cancelled:
+		// a plain send would then block this goroutine for ever
+		sendErr := func(err error) {
+			select {
+			case <-ctx.Done():
+			case bodyCh <- BlockBody{Err: err}:
+			}
+		}
 		select {
 		case <-ctx.Done():
-			bodyCh <- BlockBody{Err: ctx.Err()}
+			sendErr(ctx.Err())
 		default:
 			coreBlock := new(core.Block)
 
@@ -348,7 +360,7 @@ func (s *BlockFetcher) adaptAndSanityCheckBlock(
 			for i, tx := range txs {
 				coreTx, err := p2p2core.AdaptTransaction(tx, s.network)
 				if err != nil {
-					bodyCh <- BlockBody{Err: fmt.Errorf("failed to adapt transaction: %w", err)}
+					sendErr(fmt.Errorf("failed to adapt transaction: %w", err))
 					return
 				}
 				coreTxs[i] = coreTx
@@ -373,7 +385,7 @@ func (s *BlockFetcher) adaptAndSanityCheckBlock(
 			eventsBloom := core.EventsBloom(coreBlock.Receipts)
 			header, err := p2p2core.AdaptBlockHeader(header, eventsBloom)
 			if err != nil {
-				bodyCh <- BlockBody{Err: fmt.Errorf("failed to adapt block header: %w", err)}
+				sendErr(fmt.Errorf("failed to adapt block header: %w", err))
 				return
 			}
 			coreBlock.Header = header
@@ -399,13 +411,13 @@ func (s *BlockFetcher) adaptAndSanityCheckBlock(
 			for _, cls := range classes {
 				coreC, err := p2p2core.AdaptClass(ctx, s.compiler, cls)
 				if err != nil {
-					bodyCh <- BlockBody{Err: fmt.Errorf("failed to adapt class: %w", err)}
+					sendErr(fmt.Errorf("failed to adapt class: %w", err))
 					return
 				}
 
 				h, err := coreC.Hash()
 				if err != nil {
-					bodyCh <- BlockBody{Err: fmt.Errorf("class hash calculation error: %w", err)}
+					sendErr(fmt.Errorf("class hash calculation error: %w", err))
 					return
 				}
 				newClasses[h] = coreC
@@ -432,13 +444,13 @@ func (s *BlockFetcher) adaptAndSanityCheckBlock(
 
 			stateDiff, err := p2p2core.AdaptStateDiff(ctx, s.compiler, stateReader, contractDiffs, classes)
 			if err != nil {
-				bodyCh <- BlockBody{Err: fmt.Errorf("failed to adapt state diff: %w", err)}
+				sendErr(fmt.Errorf("failed to adapt state diff: %w", err))
 				return
 			}
 
 			blockVer, err := core.ParseBlockVersion(coreBlock.ProtocolVersion)
 			if err != nil {
-				bodyCh <- BlockBody{Err: fmt.Errorf("failed to parse block version: %w", err)}
+				sendErr(fmt.Errorf("failed to parse block version: %w", err))
 				return
 			}
 
@@ -447,7 +459,7 @@ func (s *BlockFetcher) adaptAndSanityCheckBlock(
 				// TODO: switch to core.NewTrieBackend once the legacy trie and state are removed.
 				post0132Hash, _, err := core.Post0132Hash(coreBlock, stateDiff, core.DeprecatedTrieBackend)
 				if err != nil {
-					bodyCh <- BlockBody{Err: fmt.Errorf("failed to compute p2p hash: %w", err)}
+					sendErr(fmt.Errorf("failed to compute p2p hash: %w", err))
 					return
 				}
 
@@ -456,7 +468,7 @@ func (s *BlockFetcher) adaptAndSanityCheckBlock(
 						expectedHash,
 						&post0132Hash,
 					)
-					bodyCh <- BlockBody{Err: err}
+					sendErr(err)
 					return
 				}
 			}
@@ -470,7 +482,7 @@ func (s *BlockFetcher) adaptAndSanityCheckBlock(
 
 			commitments, err := s.blockchain.SanityCheckNewHeight(coreBlock, stateUpdate, newClasses)
 			if err != nil {
-				bodyCh <- BlockBody{Err: fmt.Errorf("sanity check error: %v for block number: %v", err, coreBlock.Number)}
+				sendErr(fmt.Errorf("sanity check error: %v for block number: %v", err, coreBlock.Number))
 				return
 			}
 
